@@ -75,7 +75,12 @@ def check_valid_signature(sig: bytes) -> None:
 def check_low_der_signature(sig_pair: tuple[int, int], generator: Any) -> None:
     # IsLowDERSignature
     r, s = sig_pair
-    hi_s = generator.order() - s
+    order = generator.order()
+    if r >= order or s >= order:
+        # CPubKey::CheckLowS parses laxly: a signature whose R or S overflows the group
+        # order becomes the all-zero signature, which is not "high" (it just never verifies)
+        return
+    hi_s = order - s
     if hi_s < s:
         raise ScriptError("signature has high S value", errno.SIG_HIGH_S)
 
